@@ -27,9 +27,11 @@ ModedTrait(ts) ==
     [] ts = <<"PartialEq", "Eq", "Ord">> -> "Ord" [] OTHER -> ts[1]
 
 MCTypeOptSet(k) ==
-  { o \in { [DefOpts EXCEPT !.traits = ts, !.gen = g, !.bounds = (ModedTrait(ts) :> m) @@ ("-" :> "auto"), !.newfn = nf] :
-              ts \in TraitSetsC12 \ {<<"Into">>}, g \in GenDescs, m \in Modes, nf \in BOOLEAN } :
-      o.newfn => o.traits = <<"Default">> }
+  { o \in { [DefOpts EXCEPT !.traits = ts, !.gen = g, !.bounds = (ModedTrait(ts) :> m) @@ ("-" :> "auto"), !.newfn = nf, !.dexpr = dx] :
+              ts \in TraitSetsC12 \ {<<"Into">>}, g \in GenDescs, m \in Modes, nf \in BOOLEAN, dx \in BOOLEAN } :
+      \* (a type-level Default expression: no field is defaulted, but the bound mode still rules the header)
+      /\ o.newfn => o.traits = <<"Default">>
+      /\ o.dexpr => o.traits = <<"Default">> }
   \cup
   \* Into: one or two targets, each with a bound mode of its own
   { [DefOpts EXCEPT !.traits = <<"Into">>, !.gen = g, !.targets = <<"A">>, !.bounds = ("Into:A" :> m) @@ ("-" :> "auto")] :
